@@ -140,7 +140,7 @@ class Model(core.BfsModel):
         al += [("q_svc", s) for s in S]
         al += [("q_walk", s) for s in [None, *S]]
         al += [("q_intro", p) for p in P]
-        al += [("load", 0)]
+        al += [("load", 0), ("q_snap", 0)]
         self.alphabet = al
 
     def params(self) -> dict:
@@ -206,6 +206,9 @@ class Model(core.BfsModel):
             return sorted(self.aidx(x) for x in net.get_walkable_addresses(None if s is None else SERVICES[s]))
         elif kind == "q_intro":
             return sorted(self.aidx(x) for x in net.get_introductions_from(self.mkpeer(ev[1], self.home(ev[1]))))
+        elif kind == "q_snap":
+            # taking a snapshot reads every verified peer's preferred address (Peer.address caches it)
+            return len(net.snapshot())
         elif kind == "load":
             snap = Network()
             snap.add_verified_peer(Peer(fixtures.public_bin(11), ADDRS[0]))
@@ -215,7 +218,10 @@ class Model(core.BfsModel):
 
     # digest ---------------------------------------------------------------------------------
     def _peer_sig(self, peer) -> tuple:  # noqa: ANN001
-        return (self.pidx(peer), tuple(sorted((k.__name__, self.aidx(v)) for k, v in peer.addresses.items())))
+        # includes the cached preferred address and its dirty flag: Peer.address is derived state that snapshot() reads
+        cached = getattr(peer, "_address", None)
+        return (self.pidx(peer), tuple(sorted((k.__name__, self.aidx(v)) for k, v in peer.addresses.items())),
+                getattr(peer.addresses, "dirty", None), None if cached is None else self.aidx(cached))
 
     def digest(self, w: World):  # noqa: ANN201
         net = w.net
